@@ -5,6 +5,7 @@ import ESV.Comp.LabSem
 import ESV.Comp.FrontW13
 import ESV.Comp.ToSrcEq
 import ESV.Comp.CodegenF0e
+import ESV.Comp.CgFinal
 import Driver.Beh
 import ESV.SsbScript.Closed
 open Lean Drv ESV ESV.Comp
@@ -146,7 +147,7 @@ def handle (op : String) (j : Json) : R Json := do
     -- it lowers for the compiler model
     let p ← programOf (← fld j "prog")
     let core ← Drv.BehD.programOf (← fld j "core")
-    pure (Json.mkObj [("agree", .bool (srcAgrees (toSrc p) core)), ("f0", .bool (decide (F0Prog p)))])
+    pure (Json.mkObj [("agree", .bool (srcAgrees (toSrc p) core)), ("f0", .bool (decide (F0Prog p))), ("f1", .bool (decide (CgProg p)))])
   | "comp.backend" =>
     let rs ← (← asArr (← fld j "routines")).mapM fun r => do (← asArr r).mapM itemOf
     pure (resultTo (backend rs) [] [])
